@@ -181,6 +181,54 @@ def search_rt(opk: int, attr: str, term: str, inv: bool, slash: bool, canon: boo
     return (not canon) or _canonical_ok(text, want, slash)
 
 
+def forms_rt(k: int, slash: bool) -> bool:
+    """Equivalent spellings of one search segment parse to the same terms: '!' before the attribute or before the
+    operator, '==' for '=', blanks around the operator, a demarcated term, a demarcated key."""
+    k = realize(k)
+    opk, k = k % len(OPS), k // len(OPS)
+    inv, k = k % 2, k // 2
+    form = k % 6
+    optext, method = OPS[opk]
+    attr, term = "at", "t1"
+    bang_pre, bang_mid = ("!" if inv and form == 1 else ""), ("!" if inv and form != 1 else "")
+    op = optext
+    if form == 2 and optext == "=":
+        op = "=="
+    lhs, rhs = attr, term
+    if form == 3:
+        op = " " + op + " "
+    if form == 4:
+        rhs = '"' + term + '"'
+    if form == 5:
+        rhs = "'" + term + "'"
+    text = w_path([("k", "k"), ("b", "[" + bang_pre + lhs + bang_mid + op + rhs + "]")], slash)
+    want = [(T.KEY, "k"), (T.SEARCH, SearchTerms(bool(inv), method, attr, term))]
+    note(text=text)
+    got = list(YAMLPath(text).escaped)
+    note(parsed=[(str(t), str(a)) for t, a in got])
+    if not _seg_eq(got, want):
+        return False
+    return _canonical_ok(text, want, slash)
+
+
+def quoted_key_rt(k: int, slash: bool) -> bool:
+    """Demarcated keys: 'a.b', "a b", nested quotes; the quotes are not part of the key."""
+    k = realize(k)
+    q, k = k % 2, k // 2
+    which = k % 4
+    inner = ["a.b", "a b", "a/b", "x[0]"][which]
+    quote = "'\""[q]
+    text = w_path([("k", "r"), ("k", quote + inner + quote), ("k", "z")], slash)
+    want = [(T.KEY, "r"), (T.KEY, inner), (T.KEY, "z")]
+    note(text=text)
+    got = list(YAMLPath(text).escaped)
+    note(parsed=[(str(t), str(a)) for t, a in got])
+    if not _seg_eq(got, want):
+        return False
+    t = str(YAMLPath(text))
+    return _seg_eq(list(YAMLPath(t).escaped), want) and str(YAMLPath(t)) == t
+
+
 REGEXES = ["^a", "a b", "a.b", "x/y", "[ab]+", "(a|b)$", "\\d+", "a'b"]
 
 
@@ -347,6 +395,11 @@ def shards(tier, seed):
                      [("opk", "int"), ("k1", "str"), ("k2", "str"), ("slash", "bool")],
                      ["0 <= opk < 4", "len(k1) == 1 and len(k2) == 1", "k1 >= 'a' and k1 <= 'b' and k2 >= 'a' and k2 <= 'b'"],
                      family="parse/collector", budget=600, desc="(k1) / (k1)+(k2) / -( ) / &( )"))
+    out.append(shard(PID, "parse/forms", "harness.c08", "forms_rt(k, slash)", [("k", "int"), ("slash", "bool")],
+                     ["0 <= k < %d" % (len(OPS) * 2 * 6)], family="parse/forms", budget=900, kind="S",
+                     desc="equivalent spellings of a search segment (inversion placement, ==, blanks, demarcated term)"))
+    out.append(shard(PID, "parse/quoted_key", "harness.c08", "quoted_key_rt(k, slash)", [("k", "int"), ("slash", "bool")],
+                     ["0 <= k < 8"], family="parse/quoted_key", budget=600, kind="S", desc="demarcated keys"))
     out.append(shard(PID, "parse/collector3", "harness.c08", "collector3_rt(k, slash)", [("k", "int"), ("slash", "bool")],
                      ["0 <= k < 32"], family="parse/collector", budget=600, kind="S",
                      desc="(a) op (b) [key] op (c): every operator pair incl. none"))
